@@ -1,3 +1,4 @@
+use std::fmt::Write;
 use std::rc::Rc;
 
 use chrono::{TimeZone, Utc};
@@ -20,7 +21,9 @@ pub fn get() -> FunctionDefinitions {
                     let nsecs = ((since_epoch - (seconds as f64)) * 1e9) as u32;
                     if let Some(datetime) = Utc.timestamp_opt(seconds, nsecs).single() {
                         if let Some(JsonValue::String(format)) = self.0.apply(value, 1) {
-                            Some(datetime.format(&format).to_string().into())
+                            let mut text = String::new();
+                            write!(text, "{}", datetime.format(&format)).ok()?;
+                            Some(text.into())
                         } else {
                             None
                         }
